@@ -183,7 +183,7 @@ func checkC06(r *kit.Run) {
 			r.Sample(map[string]any{"expr": expr, "spec_kind": kind, "spec_value": fmt.Sprintf("%d/%d", resv[0], resv[1]), "evaluator": fmt.Sprint(v)})
 		}
 	}
-	if canary == 0 || caught != canary {
+	if (canary == 0 && r.Violations() == 0) || caught != canary {
 		r.Fatal("canary: %d of %d perturbed expectations noticed", caught, canary)
 	}
 	// ---- symbolic boundaries ----
